@@ -523,7 +523,7 @@ def run(pid, tier):
             api_automaton(chk, binary, sc, tier)
 
         # ---- TV: random larger models, natural orders logged, replayed through the Impl layer by TLC
-        n = 90 if tier == "quick" else 1500
+        n = 90 if tier == "quick" else 600        # (each file of 100 recorded runs costs TLC about 80 s: 1,500 models made the thorough tier an hour long)
         gen = sc.path("gen.ndjson")
         run_harness(binary, ["wg-gen", "-out", gen, "-n", str(n), "-seed", str(SEED)])
         ms, st, tr, validated, ntr = trace_models(chk, pid, binary, sc, gen, d11, "30" if tier == "quick" else "60", "60" if tier == "quick" else "200")
